@@ -18,12 +18,14 @@ the string (documented caveat, `space_after_block_string_counterexample`).  Prov
 * `SpaceAfter`: exactly one extra line break after the value, nothing else
 * options: on the C13 fragment the emitted text does not depend on `min_fold_chars`,
   `folded_wrap_chars` (beyond the string-length bound), `prefer_block_scalars`, nor on the scalar-text
-  functions, and for EVERY `indent_step ≥ 1` and both settings of `compact_list_indent` it reads back
-  as the value: the data never depends on these options (`options_layout_only_partial`)
+  functions, and for EVERY `indent_step ≥ 1`, both settings of `compact_list_indent`, of `yaml_12` (the
+  prologue), of `quote_all` and of `tagged_enums` (the scalar tokens) it reads back as the value: the data
+  never depends on these options (`options_layout_only_partial`)
 * flow wrappers: `FlowSeq` / `FlowMap` around a sequence / mapping of the flow fragment (leaves, `Some`,
   newtype structs, nested sequences / tuples / tuple structs / mappings with distinct safe string keys,
   and — since fix 1fd2d48 — enum variants with data, written `{Variant: payload}`) write one line of
-  flow text that reads back as the same tree (`flow_wrapper_roundtrip_partial`), hence as the same tree
+  flow text (after the `yaml_12` prologue, if any; `quote_all` / `tagged_enums` off: `PlainOpts`) that reads
+  back as the same tree (`flow_wrapper_roundtrip_partial`), hence as the same tree
   as the unwrapped value where that is in the C13 fragment too (`flow_wrapper_same_tree_partial`)
 * `tagged_enums` and variant names: the name of a unit variant is written by the VALUE rule in value
   positions (bare or after the tag `!!Enum `) and by the KEY rule in key positions; a safe name is
@@ -179,25 +181,25 @@ theorem space_after_blank_line_only (v : SVal) (s s' : St) (h : ser o f v s = .o
 
 /-- (T) `FlowSeq(seq)` / `FlowMap(map)` at the root, contents in the flow fragment: serialization
 succeeds, the output is the one-line flow text, and it reads back as exactly the value. -/
-theorem flow_wrapper_roundtrip_partial (ho : FragOpts o) (hf : SafeContract f) :
+theorem flow_wrapper_roundtrip_partial (ho : PlainOpts o) (hf : SafeContract f) :
     (∀ xs, inFlowFragList xs = true →
-      emit o f (.flowSeq (.seq xs)) = .ok (flowTxt (.seq xs) ++ ['\n']) ∧
-      readDoc (flowTxt (.seq xs) ++ ['\n']) = some (erase (.flowSeq (.seq xs)))) ∧
+      emit o f (.flowSeq (.seq xs)) = .ok (prologue o ++ flowTxt (.seq xs) ++ ['\n']) ∧
+      readDoc (prologue o ++ flowTxt (.seq xs) ++ ['\n']) = some (erase (.flowSeq (.seq xs)))) ∧
     (∀ known es, inFlowFragEntries es = true → (keysOf es).Nodup →
-      emit o f (.flowMap (.map known es)) = .ok (flowTxt (.map known es) ++ ['\n']) ∧
-      readDoc (flowTxt (.map known es) ++ ['\n']) = some (erase (.flowMap (.map known es)))) := by
+      emit o f (.flowMap (.map known es)) = .ok (prologue o ++ flowTxt (.map known es) ++ ['\n']) ∧
+      readDoc (prologue o ++ flowTxt (.map known es) ++ ['\n']) = some (erase (.flowMap (.map known es)))) := by
   refine ⟨fun xs hv => ⟨emit_flowSeq ho hf xs hv, ?_⟩, fun known es hv hn => ⟨emit_flowMap ho hf known es hv, ?_⟩⟩
-  · have := read_flow_doc (.seq xs) (by simpa [inFlowFrag] using hv) ⟨_, Or.inl rfl⟩
+  · have := read_flow_doc_pro o (.seq xs) (by simpa [inFlowFrag] using hv) ⟨_, Or.inl rfl⟩
     simpa [erase] using this
-  · have := read_flow_doc (.map known es) (by simp [inFlowFrag, hv, hn]) ⟨_, Or.inr rfl⟩
+  · have := read_flow_doc_pro o (.map known es) (by simp [inFlowFrag, hv, hn]) ⟨_, Or.inr rfl⟩
     simpa [erase] using this
 
 /-- (T) the flow wrapper does not change the tree: for a sequence in both fragments, the wrapped and
 the bare value serialize to texts that read back as the same tree. -/
-theorem flow_wrapper_same_tree_partial (ho : FragOpts o) (hf : SafeContract f) (xs : List SVal)
-    (h1 : inFlowFragList xs = true) (h2 : inFrag o.foldedWrapCol (.seq xs) = true) :
+theorem flow_wrapper_same_tree_partial (ho : PlainOpts o) (hf : SafeContract f) (xs : List SVal)
+    (h1 : inFlowFragList xs = true) (h2 : inFrag o (.seq xs) = true) :
     ∃ t1 t2, emit o f (.flowSeq (.seq xs)) = .ok t1 ∧ emit o f (.seq xs) = .ok t2 ∧ readDoc t1 = readDoc t2 := by
-  obtain ⟨t2, he2, hr2⟩ := emit_roundtrip_partial ho hf (.seq xs) h2
+  obtain ⟨t2, he2, hr2⟩ := emit_roundtrip_partial ho.toFragOpts hf (.seq xs) h2
   have h := (flow_wrapper_roundtrip_partial ho hf).1 xs h1
   exact ⟨_, t2, h.1, he2, by rw [h.2, hr2]; simp [erase]⟩
 
@@ -211,26 +213,29 @@ does not start with a blank (no indentation indicator).  Outside: controls (quot
 `litstr_cr_regression`), an indicator below a nested parent (quoted fallback, fix a252cf9), line breaks
 only (`litstr_only_newlines_regression`; a single one is still altered: oracle class
 `block-scalar-only-newlines`, text pinned by the crate's tests). -/
-theorem explicit_literal_roundtrip_partial (ho : FragOpts o) (hi : o.indentStep = 2) (s : List Char) (hs : LitOk s) :
+theorem explicit_literal_roundtrip_partial (hy : o.yaml12 = false) (hi : o.indentStep = 2) (s : List Char) (hs : LitOk s) :
     emit o f (.litStr s) = .ok (litText s) ∧ readDoc (litText s) = some (erase (.litStr s)) :=
-  ⟨emit_litStr ho hi s hs, by simpa [erase] using read_litText s hs⟩
+  ⟨emit_litStr hy hi s hs, by simpa [erase] using read_litText s hs⟩
 
 /-! ## options -/
 
 /-- (T) on the C13 fragment neither `min_fold_chars`, `folded_wrap_chars` (above the length of the
 strings), `prefer_block_scalars` nor the choice of scalar-text functions changes a single byte of the
-output; `indent_step` (any value ≥ 1) and `compact_list_indent` change the indentation only: under
-two option vectors of the fragment, whatever their steps and list styles, both texts read back as the
-value. -/
+output; `indent_step` (any value ≥ 1) and `compact_list_indent` change the indentation only, `yaml_12`
+adds the prologue only, `quote_all` and `tagged_enums` change the scalar tokens only: under two option
+vectors of the fragment, whatever their steps, list styles, `yaml_12`, `quote_all` and `tagged_enums`, both
+texts read back as the value. -/
 theorem options_layout_only_partial {o1 o2 : Opts} {f1 f2 : ScalarFns} (h1 : FragOpts o1) (h2 : FragOpts o2)
     (hf1 : SafeContract f1) (hf2 : SafeContract f2) (v : SVal)
-    (hv1 : inFrag o1.foldedWrapCol v = true) (hv2 : inFrag o2.foldedWrapCol v = true) :
-    (o1.indentStep = o2.indentStep → o1.compactListIndent = o2.compactListIndent → emit o1 f1 v = emit o2 f2 v) ∧
+    (hv1 : inFrag o1 v = true) (hv2 : inFrag o2 v = true) :
+    (o1.indentStep = o2.indentStep → o1.compactListIndent = o2.compactListIndent → o1.yaml12 = o2.yaml12 →
+      o1.quoteAll = o2.quoteAll → o1.taggedEnums = o2.taggedEnums → emit o1 f1 v = emit o2 f2 v) ∧
     (∃ t1 t2, emit o1 f1 v = .ok t1 ∧ emit o2 f2 v = .ok t2 ∧ readDoc t1 = some (erase v) ∧ readDoc t2 = some (erase v)) := by
   obtain ⟨t1, he1, hr1⟩ := emit_roundtrip_partial h1 hf1 v hv1
   obtain ⟨t2, he2, hr2⟩ := emit_roundtrip_partial h2 hf2 v hv2
-  refine ⟨fun hk hcp => ?_, t1, t2, he1, he2, hr1, hr2⟩
-  rw [emit_layout_partial h1 hf1 v hv1, emit_layout_partial h2 hf2 v hv2, hk, hcp]
+  refine ⟨fun hk hcp hy hq ht => ?_, t1, t2, he1, he2, hr1, hr2⟩
+  rw [emit_layout_partial h1 hf1 v hv1, emit_layout_partial h2 hf2 v hv2, hk, hcp, prologue, prologue, hy,
+    safeToks, safeToks, hq, ht]
 
 end
 
